@@ -78,6 +78,8 @@ package gcc
 //@ func (*LeakyBucketPacer).Write
 //@   modifies *
 //@   ensures size_reported: result1 == nil ==> result0 == header.MarshalSize() + len(payload)
+//@   # property C13: what is queued is a deep copy of the header (CSRC list and extension payloads included), whatever its shape
+//@   ensures header_cloned: result1 == nil ==> calls("Clone") == 1
 //@
 //@ # property C02 ("keeps working after malformed or empty input") and C16: a feedback report that acknowledges
 //@ # nothing changes nothing (no 0/0 loss ratio can enter the average), and the loss-based rate stays within its bounds
